@@ -24,6 +24,18 @@ theorem rel_apply_spec (dec : EscDec) (ue : Bool) (r : RelSpec) (base : List Str
     | none => applyText dec ue (specText r) (spellTokens base) = .error .relIndex := by
   exact Lemmas.rel_apply_spec dec ue r base hok hbase
 
+/-- **Any base pointer that exists already** - parsed earlier, built from parts, or the result of a previous
+    application - whose tokens may hold any characters (backslashes, percent signs, blank space): applying a
+    relative pointer yields the draft's tokens; the base's tokens are not decoded a second time. The only
+    condition left is the library's negative-index extension: no base token is a negative index. -/
+theorem rel_apply_parts (dec : EscDec) (ue : Bool) (r : RelSpec) (base : List Str)
+    (hneg : ∀ t ∈ base, ∀ i, parseIndexToken t = some i → 0 ≤ i) :
+    applyTo dec ue ⟨r.origin, r.offset, sufOf r⟩ (base.map tokPart) =
+      match specApply r base with
+      | some ts => .ok (ts.map Part.key)
+      | none => .error .relIndex :=
+  Lemmas.rel_apply_parts dec ue r base hneg
+
 /-- The forbidden applications are exactly: more steps than the base has tokens, an offset that makes
     the index negative, `#` at the root. -/
 theorem rel_refusals (r : RelSpec) (base : List Str) :
@@ -41,6 +53,10 @@ theorem source_tables_ok :
     Generated.reIndexToken = "(?:0|-?[1-9][0-9]*)" := by decide
 
 /-! ### Non-vacuity -/
+-- blank space at the end of the suffix belongs to its last token; a base token with a backslash stays as it is
+example : (RelPointer.parse (fun _ => none) true "0/foo ".toList).map toStr = .ok "0/foo ".toList := by rfl
+example : applyTo (fun _ => none) true ⟨0, 0, .ptr []⟩ [.key "a".toList, .key "\\u0041".toList]
+    = .ok [.key "a".toList, .key "\\u0041".toList] := by rfl
 example : specText ⟨1, -12, false, ["a/b".toList, "é".toList]⟩ = "1-12/a~1b/é".toList := by decide
 example : specApply ⟨1, 12, false, ["x".toList]⟩ ["a".toList, "2".toList, "b".toList]
     = some ["a".toList, "14".toList, "x".toList] := by decide
